@@ -22,3 +22,20 @@ Definition full (rel : bool) (toks : list bytes) (p : Loader.pdf) : pout :=
   | Loader.Rejected => PRejected
   | Loader.OutFuel => PUnmodelled
   end.
+
+(* ---- from BYTES: the abstraction of the file is computed by the byte-level parser models
+        (Model/LoaderBytes.v: header scan, backward scans, XrefSectP / IndirectP at every offset; classic layout) ---- *)
+From PV Require Model.LoaderBytes.
+
+Definition full_bytes (rel : bool) (toks : list bytes) (s : bytes) : pout :=
+  full rel toks (LoaderBytes.abstract_file rel s).
+
+(* case protocol: "Y <hex of the file> [oracle triples …] [@profile]" — the model sees only the bytes the real binary sees;
+   every other family is Pipeline.entry's *)
+Definition entry (args : list bytes) : bytes :=
+  if bytes_eqb (nth_arg args 0) (B "Y") then
+    let rest := skipn 2 args in
+    let rel := existsb (fun t => bytes_eqb t (B "@release")) rest in
+    let toks := filter (fun t => negb (Pipeline.is_profile_tok t)) rest in
+    show_pout (full_bytes rel toks (unhex (nth_arg args 1)))
+  else Pipeline.entry_ctx args.
